@@ -1,6 +1,7 @@
 package main
 
 import (
+	"os"
 	"fmt"
 	"go/types"
 	"sort"
@@ -569,4 +570,116 @@ func (e *Engine) scratchGen(fn *ssa.Function) *Gen {
 	g.entryHeap = Heap{}
 	e.scratch[fn] = g
 	return g
+}
+
+// ---- fields whose address escapes (pointer into a struct) ----
+//
+// A field of non-struct type whose address is used other than for a direct load or store (returned,
+// passed as an argument, converted to an interface ...) is stored in the cell region of its type at the
+// address paddr(object, k): direct accesses and accesses through the escaped pointer then agree.
+// paddr is injective, negative (distinct from every allocated reference and from nil), and such a cell
+// counts as allocated exactly when its object is (own).
+
+func fieldKey(t types.Type, idx int) string { return typeKey(t) + "#" + fmt.Sprint(idx) }
+
+func (e *Engine) escapingField(t types.Type, idx int) (int, bool) {
+	if e.escFields == nil {
+		e.escFields = map[string]int{}
+		e.escCells = map[string]bool{}
+		var keys []string
+		seen := map[string]bool{}
+		for _, f := range e.allFuncs {
+			if f.Blocks == nil || !e.isTarget(f) {
+				continue
+			}
+			for _, b := range f.Blocks {
+				for _, in := range b.Instrs {
+					fa, ok := in.(*ssa.FieldAddr)
+					if !ok {
+						continue
+					}
+					st := deref(fa.X.Type())
+					s, ok := st.Underlying().(*types.Struct)
+					if !ok || isStruct(s.Field(fa.Field).Type()) {
+						continue
+					}
+					esc := false
+					if refs := fa.Referrers(); refs != nil {
+						for _, r := range *refs {
+							switch x := r.(type) {
+							case *ssa.UnOp:
+							case *ssa.Store:
+								if x.Addr != ssa.Value(fa) {
+									esc = true
+								}
+							case *ssa.DebugRef:
+							case *ssa.Call:
+								// handed to a function outside the repository: its contract speaks about the
+								// location itself (argEnvVal), the pointer does not outlive the call
+								if c := x.Call.StaticCallee(); c == nil || !e.locCallee(c) {
+									esc = true
+								}
+							case *ssa.MakeInterface:
+								if mr := x.Referrers(); mr != nil {
+									for _, m := range *mr {
+										if c, ok := m.(*ssa.Call); ok {
+											if sc := c.Call.StaticCallee(); sc != nil && e.locCallee(sc) {
+												continue
+											}
+										}
+										if _, ok := m.(*ssa.DebugRef); ok {
+											continue
+										}
+										esc = true
+									}
+								}
+							default:
+								esc = true
+							}
+						}
+					}
+					if esc {
+						e.escCells["C."+mangle(typeKey(s.Field(fa.Field).Type().Underlying()))] = true
+						k := fieldKey(st, fa.Field)
+						if !seen[k] {
+							seen[k] = true
+							keys = append(keys, k)
+						}
+					}
+				}
+			}
+		}
+		sort.Strings(keys)
+		for i, k := range keys {
+			e.escFields[k] = i + 1
+			if os.Getenv("GOVC_DEBUG_ESC") != "" {
+				fmt.Fprintln(os.Stderr, "escaping field:", k)
+			}
+		}
+	}
+	k, ok := e.escFields[fieldKey(t, idx)]
+	return k, ok
+}
+
+func (e *Engine) hasEscaping() bool {
+	e.escapingField(types.Typ[types.Int], 0)
+	return len(e.escFields) > 0
+}
+
+// locCallee: a callee whose contract is stated over the argument's location (outside the repository,
+// a forwarder to such a function, or specified by a trusted contract) -- the pointer is not retained.
+func (e *Engine) locCallee(c *ssa.Function) bool {
+	if !e.isTarget(c) || e.isForwarder(c) {
+		return true
+	}
+	cs := e.contracts[c.String()]
+	if len(cs) == 0 {
+		return false
+	}
+	for _, con := range cs {
+		if !con.Trusted {
+			return false
+		}
+	}
+	return true
 }
